@@ -30,7 +30,7 @@ MINIMISE_S = {"quick": 60, "thorough": 240}
 RULE = ("a case = one program: generated preparation circuit (entangled / displaced / mixed; bosonic: cat, Fock and GKP inputs; Fock: "
         "exactly representable states) followed by 1-3 measurements (homodyne at any angle, heterodyne, photon counting, threshold; any "
         "mode subset and order; with/without post-selection; hbar drawn per run), with every outcome chosen by the simulator at the RNG "
-        "seam; non-trivial: the pre-measurement state is not vacuum; for conditioning additionally the measured mode is correlated with "
+        "seam (and, in a fifth of the Gaussian runs, a refused multi-shot / post-selected request first); non-trivial: the pre-measurement state is not vacuum; for conditioning additionally the measured mode is correlated with "
         "another mode; distinct = distinct (program, outcome schedule) digests")
 REAL = ["strawberryfields.ops Measurement classes (MeasureHomodyne/Heterodyne/Fock/Threshold incl. select, dark_counts, hbar scaling)",
         "strawberryfields.engine (sample collation, samples_dict, RegRef.val)",
